@@ -1,14 +1,50 @@
 //! C28: compiling is deterministic; modules survive their serialized forms.
+use std::fmt::Write as _;
+
+use aranya_crypto::policy::CmdId;
 use aranya_policy_module::Module;
-use aranya_policy_vm::Machine;
+use aranya_policy_vm::{CommandContext, Machine, OpenContext, SealContext, Struct, Value};
+use proptest::prelude::*;
+use serde::{Deserialize, Serialize};
 use vcommon::{CaseInfo, CheckResult, Ctx, Report, ensure, fail};
 
 use crate::{
     c22::{Case, strategy},
     exec::exec_all,
-    pgen::Cfg,
+    pgen::{Cfg, Src},
     vmrun::*,
 };
+
+/// Every text is compiled several times: `HashMap`s get fresh
+/// hasher keys per instance and per thread, so an emission order that depends on one coincides
+/// between two compilations with probability 1/(number of orders); several repeats, some of them
+/// in a fresh thread, make a coincidence unlikely.
+///
+/// Compiles `text` `same` more times in this thread and `fresh` times in a fresh thread and
+/// requires every module to equal `m1`.
+fn recompile_equal(text: &str, m1: &Module, same: usize, fresh: usize) -> CheckResult {
+    for i in 1..=same {
+        match compile_module(text) {
+            Ok(m) => ensure!(m == *m1, "two compilations of the same text differ", "compilation #{i} (same thread)\n{text}"),
+            Err(e) => fail!("second compilation of the same text failed", "#{i}: {e:?}\n{text}"),
+        }
+    }
+    if fresh == 0 {
+        return Ok(());
+    }
+    let others: Vec<Result<Module, CompileOutcome>> = std::thread::scope(|sc| {
+        sc.spawn(|| (0..fresh).map(|_| compile_module(text)).collect())
+            .join()
+            .unwrap_or_else(|_| vec![Err(CompileOutcome::Panicked("compiler thread panicked".into()))])
+    });
+    for (i, r) in others.into_iter().enumerate() {
+        match r {
+            Ok(m) => ensure!(m == *m1, "two compilations of the same text differ", "compilation #{i} (fresh thread)\n{text}"),
+            Err(e) => fail!("second compilation of the same text failed", "fresh thread #{i}: {e:?}\n{text}"),
+        }
+    }
+    Ok(())
+}
 
 pub fn cfg(depth: u32) -> Cfg {
     Cfg { depth, poison: false, commands: true, never: true, misplace: 0, max_funcs: 3, empty_structs: false }
@@ -45,11 +81,12 @@ fn check(c: &Case, info: &mut CaseInfo) -> CheckResult {
             return Ok(());
         }
     };
-    let m2 = match compile_module(&text) {
-        Ok(m) => m,
-        Err(e) => fail!("second compilation of the same text failed", "{e:?}\n{text}"),
-    };
-    ensure!(m1 == m2, "two compilations of the same text differ", "{text}");
+    // 4 compilations in total, a 5th and 6th in a fresh thread for every 16th text (thread start-up dominates otherwise)
+    let fresh = if text.len() % 16 == 0 { 2 } else { 0 };
+    recompile_equal(&text, &m1, 3, fresh)?;
+    if fresh > 0 {
+        info.label("also_compiled_in_fresh_thread");
+    }
     let machine = Machine::from_module(m1.clone()).map_err(|e| vcommon::Failure::new("from_module failed", e.to_string()))?;
     let base = exec_all(&c.prog, &c.inputs, &machine);
     // re-running on the same machine gives the same results
@@ -103,6 +140,582 @@ fn m1_has_code(m: &Module) -> bool {
     v.progmem.len() > 20
 }
 
+// ---------------------------------------------------------------------------------------------
+// wide policies: many definitions of every kind, struct literals composed from several sources
+// in every kind of body. Text is generated directly (the AST of ast.rs has no seal/open bodies,
+// attributes or finish-function composition).
+
+#[derive(Clone, Debug, PartialEq, Serialize, Deserialize)]
+pub enum WVal {
+    Int(i64),
+    Bool(bool),
+    Str(String),
+    Enum(String, i64),
+    OptInt(Option<i64>),
+}
+
+#[derive(Clone, Debug, Serialize, Deserialize)]
+pub enum WCall {
+    Function { name: String, n: i64 },
+    Action { name: String, n: i64 },
+    Policy { cmd: String, this: Vec<(String, WVal)> },
+    Seal { cmd: String, this: Vec<(String, WVal)> },
+    Open { cmd: String, this: Vec<(String, WVal)> },
+}
+
+#[derive(Clone, Debug, Serialize, Deserialize)]
+pub struct WideCase {
+    pub text: String,
+    pub calls: Vec<WCall>,
+    /// one entry "<site kind>/<number of contributing sources>" per struct literal with sources
+    pub comps: Vec<String>,
+    /// number of top-level definitions
+    pub defs: u32,
+}
+
+#[derive(Clone, PartialEq)]
+enum FT {
+    Int,
+    Bool,
+    Str,
+    Enum(usize),
+    OptInt,
+}
+
+#[derive(Clone)]
+struct Comp {
+    /// all fields of the target, in definition order (indexes into the pool)
+    fields: Vec<usize>,
+    /// fields given explicitly in the literal
+    explicit: Vec<usize>,
+    /// source piece structs, in the order they are written in the literal
+    srcs: Vec<usize>,
+}
+
+struct WGen {
+    s: Src,
+    enums: Vec<usize>,
+    pool: Vec<(String, FT)>,
+    /// piece structs `P<i>`: field lists in definition order
+    pieces: Vec<Vec<usize>>,
+    comps: Vec<Comp>,
+    var: usize,
+    sites: Vec<String>,
+}
+
+impl WGen {
+    fn shuffle<T>(&mut self, v: &mut [T]) {
+        for i in (1..v.len()).rev() {
+            let j = self.s.below(i + 1);
+            v.swap(i, j);
+        }
+    }
+
+    fn ty(&self, t: &FT) -> String {
+        match t {
+            FT::Int => "int".into(),
+            FT::Bool => "bool".into(),
+            FT::Str => "string".into(),
+            FT::Enum(i) => format!("enum En{i}"),
+            FT::OptInt => "option[int]".into(),
+        }
+    }
+
+    /// A value expression of type `t`; `n` is an int expression in scope. `plain`: only literals
+    /// and `n` itself (finish contexts).
+    fn val(&mut self, t: &FT, n: &str, plain: bool) -> String {
+        match t {
+            FT::Int => match self.s.below(if plain { 3 } else { 4 }) {
+                0 => n.to_string(),
+                1 => ["0", "1", "-3", "42", "9223372036854775807"][self.s.below(5)].to_string(),
+                2 => format!("{}", self.s.below(1000)),
+                _ => format!("saturating_add({n}, {})", self.s.below(9)),
+            },
+            FT::Bool => if self.s.chance(50) { "true" } else { "false" }.to_string(),
+            FT::Str => format!("\"s{}\"", self.s.below(7)),
+            FT::Enum(i) => {
+                let nv = self.enums[*i];
+                format!("En{i}::V{}", self.s.below(nv))
+            }
+            FT::OptInt => {
+                if self.s.chance(40) {
+                    "None".into()
+                } else {
+                    format!("Some({n})")
+                }
+            }
+        }
+    }
+
+    fn make_comp(&mut self) -> Comp {
+        let mut idx: Vec<usize> = (0..self.pool.len()).collect();
+        self.shuffle(&mut idx);
+        let m = 3 + self.s.below(8);
+        idx.truncate(m);
+        let ns = self.s.weighted(&[1, 2, 6, 5, 3]).min(m);
+        let mut fields = idx.clone();
+        self.shuffle(&mut fields);
+        if ns == 0 {
+            return Comp { fields, explicit: idx, srcs: vec![] };
+        }
+        let e = self.s.below(m - ns + 1);
+        let explicit: Vec<usize> = idx[..e].to_vec();
+        let rest: Vec<usize> = idx[e..].to_vec();
+        let mut sizes = vec![1usize; ns];
+        for _ in 0..rest.len() - ns {
+            let k = self.s.below(ns);
+            sizes[k] += 1;
+        }
+        let mut srcs = Vec::new();
+        let mut at = 0;
+        for sz in sizes {
+            let mut pf: Vec<usize> = rest[at..at + sz].to_vec();
+            at += sz;
+            if e > 0 && self.s.chance(25) {
+                // a source may also carry a field that is given explicitly (the explicit one wins)
+                pf.push(explicit[self.s.below(e)]);
+            }
+            self.shuffle(&mut pf);
+            let pi = match self.pieces.iter().position(|p| *p == pf) {
+                Some(i) => i,
+                None => {
+                    self.pieces.push(pf);
+                    self.pieces.len() - 1
+                }
+            };
+            srcs.push(pi);
+        }
+        self.shuffle(&mut srcs);
+        Comp { fields, explicit, srcs }
+    }
+
+    /// `let` statements that build one variable per source of `c`; returns (text, variable names).
+    fn piece_lets(&mut self, c: &Comp, n: &str, ind: &str) -> (String, Vec<String>) {
+        let mut o = String::new();
+        let mut names = Vec::new();
+        // the variables are created in an order unrelated to their order in the literal
+        let mut order: Vec<usize> = (0..c.srcs.len()).collect();
+        self.shuffle(&mut order);
+        let mut by_pos = vec![String::new(); c.srcs.len()];
+        for pos in order {
+            let pi = c.srcs[pos];
+            let v = format!("p{}", self.var);
+            self.var += 1;
+            let fs: Vec<String> = self.pieces[pi]
+                .clone()
+                .into_iter()
+                .map(|f| {
+                    let (name, t) = self.pool[f].clone();
+                    format!("{name}: {}", self.val(&t, n, false))
+                })
+                .collect();
+            let _ = writeln!(o, "{ind}let {v} = P{pi} {{ {} }}", fs.join(", "));
+            by_pos[pos] = v;
+        }
+        names.extend(by_pos);
+        (o, names)
+    }
+
+    /// The literal `target { explicit..., ...srcs }`.
+    fn lit(&mut self, target: &str, c: &Comp, n: &str, plain: bool, src_names: &[String], site: &str) -> String {
+        let mut parts: Vec<String> = c
+            .explicit
+            .clone()
+            .into_iter()
+            .map(|f| {
+                let (name, t) = self.pool[f].clone();
+                format!("{name}: {}", self.val(&t, n, plain))
+            })
+            .collect();
+        parts.extend(src_names.iter().map(|v| format!("...{v}")));
+        if !c.srcs.is_empty() {
+            self.sites.push(format!("{site}/{}", c.srcs.len()));
+        }
+        format!("{target} {{ {} }}", parts.join(", "))
+    }
+
+    fn pick_comp(&mut self) -> usize {
+        let n = self.comps.len();
+        self.s.below(n)
+    }
+
+    fn fields_decl(&self, fs: &[usize]) -> String {
+        fs.iter().map(|f| format!("{} {}", self.pool[*f].0, self.ty(&self.pool[*f].1))).collect::<Vec<_>>().join(", ")
+    }
+
+    fn this_vals(&mut self, fs: &[usize], int: i64) -> Vec<(String, WVal)> {
+        fs.iter()
+            .map(|f| {
+                let (name, t) = self.pool[*f].clone();
+                let v = match t {
+                    FT::Int => WVal::Int(int),
+                    FT::Bool => WVal::Bool(self.s.chance(50)),
+                    FT::Str => WVal::Str(format!("t{}", self.s.below(3))),
+                    FT::Enum(i) => WVal::Enum(format!("En{i}"), self.s.below(self.enums[i]) as i64),
+                    FT::OptInt => WVal::OptInt(if self.s.chance(50) { Some(int) } else { None }),
+                };
+                (name, v)
+            })
+            .collect()
+    }
+}
+
+pub fn build_wide(data: Vec<u16>) -> WideCase {
+    let mut g = WGen { s: Src::new(data), enums: vec![], pool: vec![], pieces: vec![], comps: vec![], var: 0, sites: vec![] };
+    let n_enum = 2 + g.s.below(6);
+    for _ in 0..n_enum {
+        let nv = 2 + g.s.below(4);
+        g.enums.push(nv);
+    }
+    for i in 0..14u8 {
+        let t = match g.s.weighted(&[5, 3, 2, 2, 1]) {
+            0 => FT::Int,
+            1 => FT::Bool,
+            2 => FT::Str,
+            3 => FT::Enum(g.s.below(n_enum)),
+            _ => FT::OptInt,
+        };
+        g.pool.push((format!("f{}", (b'a' + i) as char), t));
+    }
+    let n_comp = 4 + g.s.below(9);
+    for _ in 0..n_comp {
+        let c = g.make_comp();
+        g.comps.push(c);
+    }
+    let n_cmd = 1 + g.s.below(3).min(n_comp - 1);
+    let n_fact = 1 + g.s.below(6);
+    let n_fill = g.s.below(10);
+    let n_glob = g.s.below(8);
+    let n_fun = 2 + g.s.below(8);
+    let n_ff = g.s.below(4);
+
+    let mut o = String::new();
+    let mut defs = 0u32;
+    for (i, nv) in g.enums.iter().enumerate() {
+        let vs: Vec<String> = (0..*nv).map(|v| format!("V{v}")).collect();
+        let _ = writeln!(o, "enum En{i} {{ {} }}", vs.join(", "));
+        defs += 1;
+    }
+    for (i, p) in g.pieces.iter().enumerate() {
+        let _ = writeln!(o, "struct P{i} {{ {} }}", g.fields_decl(p));
+        defs += 1;
+    }
+    for (i, c) in g.comps.iter().enumerate() {
+        let _ = writeln!(o, "struct W{i} {{ {} }}", g.fields_decl(&c.fields));
+        let _ = writeln!(o, "effect Ef{i} {{ {} }}", g.fields_decl(&c.fields));
+        defs += 2;
+    }
+    for i in 0..n_fill {
+        let k = 1 + g.s.below(5);
+        let start = g.s.below(14);
+        let fs: Vec<usize> = (0..k).map(|j| (start + j) % 14).collect();
+        if g.s.chance(50) && i > 0 {
+            let _ = writeln!(o, "struct X{i} {{ +X{}, x{i} int }}", 0);
+        } else if i == 0 {
+            let _ = writeln!(o, "struct X0 {{ y0 int }}");
+        } else {
+            let _ = writeln!(o, "struct X{i} {{ {} }}", g.fields_decl(&fs));
+        }
+        defs += 1;
+    }
+    // which facts have a second key
+    let mut fact_two: Vec<bool> = Vec::new();
+    for i in 0..n_fact {
+        let two = g.s.chance(40);
+        let _ = writeln!(o, "fact Fc{i}[k int{}]=>{{v int, w bool}}", if two { ", j string" } else { "" });
+        fact_two.push(two);
+        defs += 1;
+    }
+    let n_piece = g.pieces.len();
+    for i in 0..n_glob {
+        let line = match g.s.below(4) {
+            0 => format!("let G{i} = {}", g.s.below(100)),
+            1 => format!("let G{i} = \"g{}\"", g.s.below(9)),
+            2 => format!("let G{i} = En0::V{}", g.s.below(g.enums[0])),
+            _ if n_piece > 0 => {
+                let pi = g.s.below(n_piece);
+                let fs: Vec<String> = g.pieces[pi]
+                    .clone()
+                    .into_iter()
+                    .map(|f| {
+                        let (name, t) = g.pool[f].clone();
+                        format!("{name}: {}", g.val(&t, "7", true))
+                    })
+                    .collect();
+                format!("let G{i} = P{pi} {{ {} }}", fs.join(", "))
+            }
+            _ => format!("let G{i} = true"),
+        };
+        let _ = writeln!(o, "{line}");
+        defs += 1;
+    }
+    o.push('\n');
+
+    let mut calls = Vec::new();
+    for i in 0..n_fun {
+        let ci = g.pick_comp();
+        let c = g.comps[ci].clone();
+        let _ = writeln!(o, "function f{i}(n int) struct W{ci} {{");
+        if g.s.chance(40) {
+            let cj = g.pick_comp();
+            let c2 = g.comps[cj].clone();
+            let (lets, names) = g.piece_lets(&c2, "n", "    ");
+            o.push_str(&lets);
+            let target = if g.s.chance(50) { format!("W{cj}") } else { format!("Ef{cj}") };
+            let l = g.lit(&target, &c2, "n", false, &names, "function");
+            let _ = writeln!(o, "    let x{} = {l}", g.var);
+            g.var += 1;
+        }
+        let (lets, names) = g.piece_lets(&c, "n", "    ");
+        o.push_str(&lets);
+        let l = g.lit(&format!("W{ci}"), &c, "n", false, &names, "function");
+        let _ = writeln!(o, "    return {l}\n}}\n");
+        defs += 1;
+        for n in [0i64, -5] {
+            calls.push(WCall::Function { name: format!("f{i}"), n });
+        }
+    }
+
+    // finish functions: parameters are the sources of the composition they emit
+    let mut ffs: Vec<(usize, usize)> = Vec::new(); // (index, comp)
+    for i in 0..n_ff {
+        let ci = g.pick_comp();
+        let c = g.comps[ci].clone();
+        let names: Vec<String> = (0..c.srcs.len()).map(|k| format!("q{k}")).collect();
+        let params: Vec<String> = c.srcs.iter().zip(&names).map(|(pi, q)| format!("{q} struct P{pi}")).collect();
+        let _ = writeln!(o, "finish function ff{i}({}) {{", params.join(", "));
+        let l = g.lit(&format!("Ef{ci}"), &c, "3", true, &names, "finish_function");
+        let _ = writeln!(o, "    emit {l}");
+        let fi = g.s.below(n_fact);
+        let _ = writeln!(o, "    create Fc{fi}[k: {}{}]=>{{v: 1, w: true}}", 100 + i, if fact_two[fi] { ", j: \"ff\"" } else { "" });
+        let _ = writeln!(o, "}}\n");
+        ffs.push((i, ci));
+        defs += 1;
+    }
+
+    for j in 0..n_cmd {
+        let own = g.comps[j].clone();
+        let n_expr = own.fields.iter().find(|f| g.pool[**f].1 == FT::Int).map(|f| format!("this.{}", g.pool[*f].0)).unwrap_or_else(|| "7".into());
+        let _ = writeln!(o, "command C{j} {{");
+        let na = g.s.below(4);
+        if na > 0 {
+            let attrs: Vec<String> = (0..na)
+                .map(|a| match g.s.below(3) {
+                    0 => format!("a{a}: {}", g.s.below(50)),
+                    1 => format!("a{a}: \"v{}\"", g.s.below(5)),
+                    _ => format!("a{a}: En0::V{}", g.s.below(g.enums[0])),
+                })
+                .collect();
+            let _ = writeln!(o, "    attributes {{ {} }}", attrs.join(", "));
+        }
+        let _ = writeln!(o, "    fields {{ {} }}", g.fields_decl(&own.fields));
+        for blk in ["seal", "open"] {
+            let _ = writeln!(o, "    {blk} {{");
+            // `this` is not in scope in `open`
+            let n = if blk == "seal" { n_expr.as_str() } else { "11" };
+            let (ci, target) = if g.s.chance(50) { (j, format!("C{j}")) } else { let ci = g.pick_comp(); (ci, format!("W{ci}")) };
+            let c = g.comps[ci].clone();
+            let (lets, names) = g.piece_lets(&c, n, "        ");
+            o.push_str(&lets);
+            let l = g.lit(&target, &c, n, false, &names, blk);
+            let _ = writeln!(o, "        let x{} = {l}", g.var);
+            g.var += 1;
+            let _ = writeln!(o, "        return todo()\n    }}");
+        }
+        let n_recall = g.s.below(3);
+        // policy
+        let _ = writeln!(o, "    policy {{");
+        let k = 1 + g.s.below(3);
+        for _ in 0..k {
+            let ci = g.pick_comp();
+            let c = g.comps[ci].clone();
+            let (lets, names) = g.piece_lets(&c, &n_expr, "        ");
+            o.push_str(&lets);
+            let target = if g.s.chance(50) { format!("W{ci}") } else { format!("Ef{ci}") };
+            let l = g.lit(&target, &c, &n_expr, false, &names, "policy");
+            let _ = writeln!(o, "        let x{} = {l}", g.var);
+            g.var += 1;
+        }
+        // sources for the finish block are built here, outside of it
+        let ci = g.pick_comp();
+        let c = g.comps[ci].clone();
+        let (lets, names) = g.piece_lets(&c, &n_expr, "        ");
+        o.push_str(&lets);
+        let ff_use = if ffs.is_empty() || g.s.chance(30) { None } else { Some(ffs[g.s.below(ffs.len())]) };
+        let mut ff_args = Vec::new();
+        if let Some((_, fc)) = ff_use {
+            let c2 = g.comps[fc].clone();
+            let (lets, names2) = g.piece_lets(&c2, &n_expr, "        ");
+            o.push_str(&lets);
+            ff_args = names2;
+        }
+        if n_recall > 0 {
+            let _ = writeln!(o, "        check {n_expr} >= 0 else recall r{}()", g.s.below(n_recall));
+        }
+        let _ = writeln!(o, "        finish {{");
+        let l = g.lit(&format!("Ef{ci}"), &c, "5", true, &names, "finish_block");
+        let _ = writeln!(o, "            emit {l}");
+        if let Some((fi, _)) = ff_use {
+            let _ = writeln!(o, "            ff{fi}({})", ff_args.join(", "));
+        }
+        let fi = g.s.below(n_fact);
+        let _ = writeln!(o, "            create Fc{fi}[k: {}{}]=>{{v: 2, w: false}}", j, if fact_two[fi] { ", j: \"p\"" } else { "" });
+        let _ = writeln!(o, "        }}\n    }}");
+        for r in 0..n_recall {
+            let _ = writeln!(o, "    recall r{r}() {{");
+            let ci = g.pick_comp();
+            let c = g.comps[ci].clone();
+            let (lets, names) = g.piece_lets(&c, &n_expr, "        ");
+            o.push_str(&lets);
+            if g.s.chance(50) {
+                let l = g.lit(&format!("W{ci}"), &c, &n_expr, false, &names, "recall");
+                let _ = writeln!(o, "        let x{} = {l}", g.var);
+                g.var += 1;
+            }
+            let l = g.lit(&format!("Ef{ci}"), &c, "6", true, &names, "recall_finish_block");
+            let _ = writeln!(o, "        finish {{\n            emit {l}\n        }}\n    }}");
+        }
+        let _ = writeln!(o, "}}\n");
+        defs += 1;
+        for int in [3i64, -2] {
+            let this = g.this_vals(&own.fields, int);
+            calls.push(WCall::Policy { cmd: format!("C{j}"), this });
+        }
+        let this = g.this_vals(&own.fields, 4);
+        calls.push(WCall::Seal { cmd: format!("C{j}"), this: this.clone() });
+        calls.push(WCall::Open { cmd: format!("C{j}"), this });
+    }
+
+    for j in 0..n_cmd {
+        let own = g.comps[j].clone();
+        let _ = writeln!(o, "action act{j}(n int) {{");
+        if g.s.chance(50) {
+            let ci = g.pick_comp();
+            let c = g.comps[ci].clone();
+            let (lets, names) = g.piece_lets(&c, "n", "    ");
+            o.push_str(&lets);
+            let l = g.lit(&format!("W{ci}"), &c, "n", false, &names, "action");
+            let _ = writeln!(o, "    let x{} = {l}", g.var);
+            g.var += 1;
+        }
+        let (lets, names) = g.piece_lets(&own, "n", "    ");
+        o.push_str(&lets);
+        let l = g.lit(&format!("C{j}"), &own, "n", false, &names, "action");
+        let _ = writeln!(o, "    publish {l}\n}}\n");
+        defs += 1;
+        calls.push(WCall::Action { name: format!("act{j}"), n: 1 });
+    }
+    WideCase { text: o, calls, comps: g.sites, defs }
+}
+
+fn wide_strategy(len: usize) -> impl Strategy<Value = WideCase> {
+    prop::collection::vec(any::<u16>(), 0..len).prop_map(build_wide)
+}
+
+fn wval(v: &WVal) -> Value {
+    match v {
+        WVal::Int(n) => Value::Int(*n),
+        WVal::Bool(b) => Value::Bool(*b),
+        WVal::Str(s) => Value::String(s.parse().expect("no NUL")),
+        WVal::Enum(n, i) => Value::Enum(ident_of(n), *i),
+        WVal::OptInt(o) => Value::Option(o.map(|n| Box::new(Value::Int(n)))),
+    }
+}
+
+fn wthis(cmd: &str, this: &[(String, WVal)]) -> Struct {
+    Struct { name: ident_of(cmd), fields: this.iter().map(|(n, v)| (ident_of(n), wval(v))).collect() }
+}
+
+fn run_seal_open(machine: &Machine, io: &mut RecIo, this: Struct, seal: bool) -> RunOut {
+    let name = this.name.clone();
+    let ev0 = io.events.len();
+    io.ffi_log.borrow_mut().clear();
+    let ctx = if seal {
+        CommandContext::Seal(SealContext { name, head_id: CmdId::default() })
+    } else {
+        CommandContext::Open(OpenContext { name })
+    };
+    let (end, stack) = {
+        let mut rs = machine.create_run_state(io, ctx);
+        let r = if seal { rs.call_seal(this, vec![1, 2, 3]) } else { rs.call_open(this, vec![1, 2, 3], envelope()) };
+        let end = match r {
+            Ok(x) => RunEnd::Exit(x),
+            Err(e) => RunEnd::Error(format!("{}: {}", err_name(&e.err_type), e.err_type), classify(&e.err_type)),
+        };
+        (end, rs.stack.as_slice().to_vec())
+    };
+    RunOut { end, stack, ffi: io.ffi_log.borrow().clone(), events: io.events[ev0..].to_vec(), write_before_finish: None, events_at_recall: None }
+}
+
+/// Every entry point of a wide case: (what, outcome, fact store afterwards).
+fn exec_wide(c: &WideCase, machine: &Machine) -> Vec<(String, RunOut, String)> {
+    c.calls
+        .iter()
+        .map(|call| {
+            let mut io = RecIo::new();
+            let (what, out) = match call {
+                WCall::Function { name, n } => (format!("function {name}({n})"), run_function(machine, &mut io, name, vec![Value::Int(*n)])),
+                WCall::Action { name, n } => (format!("action {name}({n})"), run_action(machine, &mut io, name, vec![Value::Int(*n)])),
+                WCall::Policy { cmd, this } => (format!("policy {cmd}"), run_command(machine, &mut io, wthis(cmd, this))),
+                WCall::Seal { cmd, this } => (format!("seal {cmd}"), run_seal_open(machine, &mut io, wthis(cmd, this), true)),
+                WCall::Open { cmd, this } => (format!("open {cmd}"), run_seal_open(machine, &mut io, wthis(cmd, this), false)),
+            };
+            (what, out, format!("{:?}", io.facts))
+        })
+        .collect()
+}
+
+fn check_wide(c: &WideCase, info: &mut CaseInfo) -> CheckResult {
+    let text = &c.text;
+    let m1 = match compile_module(text) {
+        Ok(m) => m,
+        Err(CompileOutcome::Panicked(m)) => fail!("front end panicked", "{m}\n{text}"),
+        // the generator's claim is that these texts are valid: a rejection would make the part vacuous
+        Err(e) => fail!("generated wide policy rejected", "{e:?}\n{text}"),
+    };
+    recompile_equal(text, &m1, 3, 2)?;
+    let machine = Machine::from_module(m1.clone()).map_err(|e| vcommon::Failure::new("from_module failed", e.to_string()))?;
+    let base = exec_wide(c, &machine);
+    let again = exec_wide(c, &machine);
+    ensure!(base == again, "re-execution on the same machine differs", "{text}");
+    let forms: [(&str, fn(&Module) -> Result<Module, String>); 2] = [("cbor", via_cbor), ("rkyv", via_rkyv)];
+    for (name, f) in forms {
+        let back = match f(&m1) {
+            Ok(b) => b,
+            Err(e) => fail!("module does not survive a serialized form", "{name}: {e}\n{text}"),
+        };
+        ensure!(back == m1, "decoded module differs", "{name}\n{text}");
+        let mach2 = Machine::from_module(back).map_err(|e| vcommon::Failure::new("from_module failed", e.to_string()))?;
+        ensure!(mach2 == machine, "machine from decoded module differs", "{name}\n{text}");
+        let runs = exec_wide(c, &mach2);
+        if runs != base {
+            let i = runs.iter().zip(&base).position(|(a, b)| a != b).unwrap_or(0);
+            fail!("execution on the decoded module differs", "{name}: {:?} vs {:?}\n{text}", runs.get(i), base.get(i));
+        }
+    }
+    let mut multi = false;
+    for s in &c.comps {
+        let (site, k) = s.split_once('/').unwrap_or((s, "0"));
+        if k != "1" {
+            multi = true;
+            info.label(format!("multi_source_in_{site}"));
+        }
+        info.label(format!("sources_{k}"));
+    }
+    info.label(format!("defs_{}x", c.defs / 10 * 10));
+    for (what, out, _) in &base {
+        let kind = what.split(' ').next().unwrap_or("");
+        match &out.end {
+            RunEnd::Exit(x) => info.label(format!("{kind}_exit_{x:?}")),
+            RunEnd::Error(e, _) => info.label(format!("{kind}_error_{}", e.split(':').next().unwrap_or(""))),
+        }
+    }
+    if multi && m1_has_code(&m1) {
+        info.nontrivial();
+    }
+    Ok(())
+}
+
 pub fn run(ctx: &Ctx) -> ! {
     let mut rep = Report::new(ctx, "exploration");
     rep.assume("serialized forms of a Module in the code base: ciborium (policy-compiler CLI, VM test) and the rkyv derives; serde_json and postcard are also tried and only counted when they cannot encode a Module at all");
@@ -110,10 +723,23 @@ pub fn run(ctx: &Ctx) -> ! {
     let n = ctx.pick(6_000, 120_000);
     rep.explore(
         "modules",
-        "generated policies (types, globals, 1-3 functions, facts, effects, finish functions, 1-2 commands with recall blocks, one action): compile twice => equal Module; cbor / rkyv (json, postcard when representable) round-trip => equal Module, equal Machine, identical execution of every entry point; non-trivial = program with >=1 command run, >=1 action run and >20 instructions",
+        "generated policies (types, globals, 1-3 functions, facts, effects, finish functions, 1-2 commands with recall blocks, one action): compile 4-6 times (also in a fresh thread) => equal Modules; cbor / rkyv (json, postcard when representable) round-trip => equal Module, equal Machine, identical execution of every entry point; non-trivial = program with >=1 command run, >=1 action run and >20 instructions",
         || strategy(cfg(4), 2500, 2),
         n,
         check,
+    );
+    rep.assume("every text is compiled 4 times in the worker thread; every wide text and every 16th text of part modules 2 more times in a fresh thread (6 in total); all Modules must be equal");
+    rep.explore(
+        "wide_modules",
+        "generated wide policies: 2-7 enums, 4-12 composed struct/effect pairs plus their source structs, 0-9 filler structs (with +insertion), 1-6 facts, 0-7 globals, \
+         2-9 functions, 0-3 finish functions, 1-3 commands (attributes, seal, open, policy with finish block and finish-function call, 0-2 recall blocks), one action per command; \
+         struct literals composed from 0-4 `...source` entries with disjoint contributed field sets (sources written in an order unrelated to definition/creation order, \
+         optionally overlapping an explicit field) in function, action, seal, open, policy, recall bodies, finish blocks and finish functions; \
+         oracle: 6 compilations => equal Module; cbor / rkyv round trip => equal Module, equal Machine, identical execution of every function, action, command policy, seal and open block; \
+         non-trivial = at least one literal with >=2 sources and >20 instructions",
+        || wide_strategy(3000),
+        ctx.pick(600, 30_000),
+        check_wide,
     );
     rep.finish()
 }
